@@ -336,12 +336,14 @@ Qed.
    pass the strict validity predicate *)
 Theorem heap_inv_sublang_valid a cfgd cfgs ncaps fuel src ops m :
   arena_spec_wf a -> root_cap_ok a -> create a (init_rlimit cfgd) = Ok m -> sub_prog ops = true ->
+  msg_ok src -> cfg_strict cfgs = true ->
   let st0 := mkBSt (mkW m src (init_rlimit cfgs)) [] in
+  dst_run (mkEnv cfgd cfgs ncaps fuel) st0 ops ->
   Forall seg_bound (bstates (mkEnv cfgd cfgs ncaps fuel) st0 ops) ->
   Forall (fun st => valid_message (bm_data (w_dst (st_w st))) = VOk) (bstates (mkEnv cfgd cfgs ncaps fuel) st0 ops).
 Proof.
-  intros Ha Hr Hc Hp st0 Hb.
-  pose proof (heap_inv_sublang a cfgd cfgs ncaps fuel src ops m Ha Hr Hc Hp Hb) as H.
+  intros Ha Hr Hc Hp Hms Hcs st0 Hd Hb.
+  pose proof (heap_inv_sublang a cfgd cfgs ncaps fuel src ops m Ha Hr Hc Hp Hms Hcs Hd Hb) as H.
   eapply Forall_impl; [|exact H]. intros st (objs & pads & Hs & _). eapply hinv_valid; eauto.
 Qed.
 
@@ -358,10 +360,14 @@ Definition ex2_ops : list bop :=
    BSetPtr 0 0 8; BReopen; BRead InDst ORoot;
    BNewPrim 0 2 3; BListSetUint 10 1 2 513; BRead InDst (OLStruct 10 1); BSetPtr 9 0 11;
    BNewStruct 0 8 2; BSetPtr 12 0 10; BNewComp 0 8 1 2; BSetStruct 13 1 12; BRead InDst (OLStruct 13 1); BSetPtr 12 1 14;
-   BNewStruct 0 8 2; BCopyFrom 15 12; BSetRoot 15].
+   BNewStruct 0 8 2; BCopyFrom 15 12; BSetRoot 15;
+   BRead InSrc ORoot; BSetPtr 15 1 16; BRead InSrc (OSPtr 16 0); BSetPtr 15 0 17].
 Definition ex2_env := mkEnv (mkCfg 0 0 true true) (mkCfg 0 0 true true) 0 64%nat.
 Definition ex2_m : bmsg := mkBM AMulti [mkBS [0; 0; 0; 0; 0; 0; 0; 0] 1024] [] 67108864.
-Definition ex2_st0 := mkBSt (mkW ex2_m [] 100) [].
+(* a source message: root -> struct (1 data word, 1 pointer) -> text "hi" *)
+Definition ex2_src : segs :=
+  [[0;0;0;0;1;0;1;0;  7;0;0;0;0;0;0;0;  1;0;0;0;26;0;0;0;  104;105;0;0;0;0;0;0]].
+Definition ex2_st0 := mkBSt (mkW ex2_m ex2_src 100) [].
 Lemma seg_bound_b l : forallb (fun st => nsegs (w_dst (st_w st)) <? 4294967296) l = true -> Forall seg_bound l.
 Proof. intros H. apply Forall_forall. intros st Hst. rewrite forallb_forall in H. specialize (H st Hst). unfold seg_bound. lia. Qed.
 
@@ -372,10 +378,12 @@ Proof. intros H. apply Forall_forall. intros st Hst. rewrite forallb_forall in H
    the computed verdicts *)
 Example sublang_example2 :
   create (ArMulti None) (init_rlimit (mkCfg 0 0 true true)) = Ok ex2_m /\
-  sub_prog ex2_ops = true /\
+  sub_prog ex2_ops = true /\ msg_ok ex2_src /\ dst_run ex2_env ex2_st0 ex2_ops /\
   Forall seg_bound (bstates ex2_env ex2_st0 ex2_ops) /\
-  map (fun st => valid_message (bm_data (w_dst (st_w st)))) (bstates ex2_env ex2_st0 ex2_ops) = repeat VOk 33.
+  map (fun st => valid_message (bm_data (w_dst (st_w st)))) (bstates ex2_env ex2_st0 ex2_ops) = repeat VOk 37.
 Proof.
   split; [vm_compute; reflexivity|]. split; [reflexivity|].
+  split; [repeat constructor; cbn; unfold maxSegmentSize; lia|].
+  split; [vm_compute; repeat split; reflexivity|].
   split; [apply seg_bound_b; vm_compute; reflexivity|vm_compute; reflexivity].
 Qed.
